@@ -23,11 +23,11 @@ const (
 
 type est uint8
 
-func mkSt(classes int) est              { return est(classes) }
-func (s est) restrict(classes int) est  { return s & est(classes|classes<<3) }
-func (s est) report() est               { return est((int(s)&7)<<3) | (s & est(7<<3)) }
-func (s est) badPending() bool          { return int(s)&cOther != 0 }
-func (s est) mayOther() bool            { return int(s)&(cOther|cOther<<3) != 0 }
+func mkSt(classes int) est             { return est(classes) }
+func (s est) restrict(classes int) est { return s & est(classes|classes<<3) }
+func (s est) report() est              { return est((int(s)&7)<<3) | (s & est(7<<3)) }
+func (s est) badPending() bool         { return int(s)&cOther != 0 }
+func (s est) mayOther() bool           { return int(s)&(cOther|cOther<<3) != 0 }
 func (s est) String() string {
 	var out []string
 	for i, n := range []string{"nil", "EOF", "other"} {
@@ -68,40 +68,40 @@ func qname(f *ssa.Function) string {
 
 // stream read sources (frozen table; each entry returns an error that reflects the underlying reader)
 var streamSources = map[string]string{
-	"(*bufio.Reader).ReadByte":      "bufio.Reader.ReadByte",
-	"(*bufio.Reader).ReadString":    "bufio.Reader.ReadString",
-	"(*bufio.Reader).ReadBytes":     "bufio.Reader.ReadBytes",
-	"(*bufio.Reader).ReadRune":      "bufio.Reader.ReadRune",
-	"(*bufio.Reader).ReadLine":      "bufio.Reader.ReadLine",
-	"(*bufio.Reader).ReadSlice":     "bufio.Reader.ReadSlice",
-	"(*bufio.Reader).Read":          "bufio.Reader.Read",
-	"(*bufio.Reader).Peek":          "bufio.Reader.Peek",
-	"(*bufio.Reader).Discard":       "bufio.Reader.Discard",
-	"(*bufio.Reader).WriteTo":       "bufio.Reader.WriteTo",
-	"(*encoding/csv.Reader).Read":   "csv.Reader.Read",
-	"(*encoding/csv.Reader).ReadAll": "csv.Reader.ReadAll",
-	"(*bufio.Scanner).Err":          "bufio.Scanner.Err",
-	"io.ReadAll":                    "io.ReadAll",
-	"io.ReadFull":                   "io.ReadFull",
-	"io.ReadAtLeast":                "io.ReadAtLeast",
-	"io.Copy":                       "io.Copy",
-	"io.CopyN":                      "io.CopyN",
+	"(*bufio.Reader).ReadByte":           "bufio.Reader.ReadByte",
+	"(*bufio.Reader).ReadString":         "bufio.Reader.ReadString",
+	"(*bufio.Reader).ReadBytes":          "bufio.Reader.ReadBytes",
+	"(*bufio.Reader).ReadRune":           "bufio.Reader.ReadRune",
+	"(*bufio.Reader).ReadLine":           "bufio.Reader.ReadLine",
+	"(*bufio.Reader).ReadSlice":          "bufio.Reader.ReadSlice",
+	"(*bufio.Reader).Read":               "bufio.Reader.Read",
+	"(*bufio.Reader).Peek":               "bufio.Reader.Peek",
+	"(*bufio.Reader).Discard":            "bufio.Reader.Discard",
+	"(*bufio.Reader).WriteTo":            "bufio.Reader.WriteTo",
+	"(*encoding/csv.Reader).Read":        "csv.Reader.Read",
+	"(*encoding/csv.Reader).ReadAll":     "csv.Reader.ReadAll",
+	"(*bufio.Scanner).Err":               "bufio.Scanner.Err",
+	"io.ReadAll":                         "io.ReadAll",
+	"io.ReadFull":                        "io.ReadFull",
+	"io.ReadAtLeast":                     "io.ReadAtLeast",
+	"io.Copy":                            "io.Copy",
+	"io.CopyN":                           "io.CopyN",
 	"github.com/fluhus/gostuff/aio.Open": "aio.Open",
 }
 
 // calls whose error result cannot be non-nil in the way they are used here, or does not matter (one line of reason each)
 var errExempt = map[string]string{
-	"(*bufio.Reader).UnreadByte": "cannot fail directly after a successful ReadByte",
-	"(*bytes.Buffer).Write":      "bytes.Buffer never returns an error",
-	"(*bytes.Buffer).WriteByte":  "bytes.Buffer never returns an error",
-	"(*bytes.Buffer).WriteString": "bytes.Buffer never returns an error",
-	"(*bytes.Buffer).WriteRune":  "bytes.Buffer never returns an error",
-	"(*strings.Builder).Write":      "strings.Builder never returns an error",
-	"(*strings.Builder).WriteByte":  "strings.Builder never returns an error",
+	"(*bufio.Reader).UnreadByte":     "cannot fail directly after a successful ReadByte",
+	"(*bytes.Buffer).Write":          "bytes.Buffer never returns an error",
+	"(*bytes.Buffer).WriteByte":      "bytes.Buffer never returns an error",
+	"(*bytes.Buffer).WriteString":    "bytes.Buffer never returns an error",
+	"(*bytes.Buffer).WriteRune":      "bytes.Buffer never returns an error",
+	"(*strings.Builder).Write":       "strings.Builder never returns an error",
+	"(*strings.Builder).WriteByte":   "strings.Builder never returns an error",
 	"(*strings.Builder).WriteString": "strings.Builder never returns an error",
-	"(*strings.Builder).WriteRune":  "strings.Builder never returns an error",
-	"fmt.Errorf":                 "constructs an error",
-	"errors.New":                 "constructs an error",
+	"(*strings.Builder).WriteRune":   "strings.Builder never returns an error",
+	"fmt.Errorf":                     "constructs an error",
+	"errors.New":                     "constructs an error",
 }
 
 func infallibleWriter(v ssa.Value) bool {
@@ -240,12 +240,12 @@ func definitelyNonNilErr(v ssa.Value) bool {
 }
 
 type fdTerm struct {
-	val    ssa.Value       // tracked error value; nil for a discarded result
-	def    ssa.Instruction // defining instruction (call/extract/phi); nil for parameters
-	call   *ssa.Call       // originating source call, if any
-	what   string
-	alias  map[ssa.Value]bool
-	noEOF  bool
+	val   ssa.Value       // tracked error value; nil for a discarded result
+	def   ssa.Instruction // defining instruction (call/extract/phi); nil for parameters
+	call  *ssa.Call       // originating source call, if any
+	what  string
+	alias map[ssa.Value]bool
+	noEOF bool
 }
 
 type fdFinding struct {
@@ -442,7 +442,9 @@ func (e *fdEngine) terms(fn *ssa.Function) []*fdTerm {
 			}
 		})
 	}
-	sort.SliceStable(out, func(i, j int) bool { return out[i].def != nil && out[j].def != nil && out[i].def.Pos() < out[j].def.Pos() })
+	sort.SliceStable(out, func(i, j int) bool {
+		return out[i].def != nil && out[j].def != nil && out[i].def.Pos() < out[j].def.Pos()
+	})
 	return out
 }
 
